@@ -35,6 +35,13 @@ OBLIGATIONS += [
        src="harness/sign.c", assumes=SA, replayable=True, cbmc=["--unwind", "66", "--unwinding-assertions"]),
 ]
 
+OBLIGATIONS.append(ob("c06.f.pk_to_curve25519", "hf_pk_to_curve", ["crypto_sign_ed25519_pk_to_curve25519", "fe25519_1", "fe25519_add (fe_51)", "fe25519_sub (fe_51)"],
+    "Ed25519 public key -> X25519 public key: rejected (-1, output untouched) exactly when the point fails to decode, has small order or is outside the main subgroup (each test on the decoded point); "
+    "otherwise the output is encode((1 + y) * (1 - y)^-1 mod p), RFC 7748's birational map, with the operands of the inversion and of the product checked as integers modulo 2^255-19",
+    src="harness/sign.c", props=("C06",), defs=["-DVPK2CURVE=1"], gi_pre=["--replace-calls", "fe25519_mul:s_fe_mul"], replayable=False,
+    assumes=["ge25519_frombytes_negate_vartime / has_small_order / is_on_main_subgroup are assumed callees with arbitrary verdicts and an arbitrary reduced y; fe25519_invert, fe25519_mul and fe25519_tobytes are assumed callees with arbitrary results (tobytes: c05.f.fe_codec); "
+             "that the inverse and the product are the field inverse / product is NOT decided"],
+    cbmc=["--unwind", "66", "--unwinding-assertions"]))
 OBLIGATIONS.append(ob("c06.f.ph", "hf_ph", ["crypto_sign_ed25519ph_init", "crypto_sign_ed25519ph_update", "crypto_sign_ed25519ph_final_create", "crypto_sign_ed25519ph_final_verify"],
     "Ed25519ph: the multi-part API signs / verifies the 64-byte SHA-512 pre-hash with the pre-hashed (dom2) flag; verify returns the detached verdict",
     src="harness/sign_ph.c", defs=["-DPART=0"], replayable=True, assumes=["SHA-512 and the detached sign / verify are logging stubs (their own obligations: c06.f.sign_detached, c06.f.verify_detached)"],
